@@ -57,7 +57,7 @@ func (c14Prop) InputObs(in interface{}, obs Sx) Sx {
 	if c.Auth != nil {
 		return L(Z(0), c14{}.Input(*c.Auth))
 	}
-	return L(Z(1), sessProp{id: "C14"}.Input(*c.Sess))
+	return L(Z(1), sessProp{id: "C14"}.InputObs(*c.Sess, obs))
 }
 func (p c14Prop) Input(in interface{}) Sx { return p.InputObs(in, L()) }
 func (c14Prop) Oracle(in interface{}, obs Sx) (string, string) {
